@@ -61,7 +61,9 @@ class AnySpecifier(BaseSpecifier):
         return ""
 
     def __hash__(self) -> int:
-        return hash(str(self))
+        # AnySpecifier() == RangeSpecifier(), so it must hash like the dataclass
+        # hash of an unbounded RangeSpecifier: (min, max, include_min, include_max)
+        return hash((None, None, False, False))
 
     def __eq__(self, other: object) -> bool:
         if not isinstance(other, BaseSpecifier):
